@@ -93,7 +93,7 @@ pub fn dump_case(id: &str, c: &compiler::pipeline::pipeline::Compilation, out: &
 /// a library package `Lib` (optionally a second one `Base` below it) exporting a struct, an enum,
 /// a generic enum, a trait with impls, generic and trait-bounded functions, a closure-returning
 /// function; `Main` uses item kind `i % 12` across the boundary (qualified names, dyn, generics)
-fn multi_package_project(i: usize) -> (Vec<(String, String)>, String) {
+pub fn multi_package_project(i: usize) -> (Vec<(String, String)>, String) {
     let two = i % 2 == 1;
     let mut files = Vec::new();
     let base = "package Base\n\nstruct Unit2 { v: int32 }\n\nfn base_val(u: Unit2) -> int32 { u.v * 2 }\n\ntrait Named { fn name(Self) -> string; }\n\nimpl Named for Unit2 { fn name(self: Unit2) -> string { \"unit2\" } }\n";
